@@ -271,7 +271,9 @@ impl Responder {
                 // Don't consider reorged trackers since they have wrong DB status.
                 continue;
             } else if let ConfirmationStatus::ConfirmedIn(h) = penalty_summary.status {
-                let confirmations = current_height - h;
+                // The reorged set lives in memory only: after a restart in the middle of a reorg a tracker can be
+                // recorded as confirmed above the height being connected (it has no confirmations on this chain yet).
+                let confirmations = current_height.saturating_sub(h);
                 if confirmations == constants::IRREVOCABLY_RESOLVED {
                     // Tracker is deep enough in the chain, it can be deleted
                     completed_trackers.push(uuid);
